@@ -12,7 +12,7 @@ import (
 
 // C34 — the inner ring co-signs only notary transactions whose calls it fully validated.
 func init() {
-	register(&Check{ID: "C34", Level: "other", Pkgs: []string{"./pkg/morph/event/...", "./pkg/innerring/..."}, Run: runC34})
+	register(&Check{ID: "C34", Level: "other", Pkgs: []string{"./pkg/innerring/processors/container", "./pkg/morph/event/...", "./pkg/innerring/..."}, Run: runC34})
 }
 
 func runC34(p *core.Prog, r *core.Report) {
@@ -42,6 +42,46 @@ func runC34(p *core.Prog, r *core.Report) {
 	r5 := r.Rule("C34.R5", "validateExpiration returns nil only after comparing the fallback's NotValidBefore with a chain height obtained from the block counter in this very call (directly, or through a helper whose every result is the counter's answer of that call): a remembered height is lower than the real one, the only unsafe direction", 2)
 	expirationAgainstFreshHeight(p, r, r5, prepT)
 	r.Explain += " (R5) the height the fallback's NotValidBefore is compared with is the block counter's answer obtained inside validateExpiration for this request; a height remembered from an earlier request can only be too low, which turns 'expired' into 'valid' and lets a request whose fallback is already valid be co-signed."
+	// ---- R6 a creation request's attached eACL is for the container being created
+	r6 := r.Rule("C34.R6", "processCreateContainerRequest co-signs a creation that carries an eACL table only when the table's container id equals the id of the container being created (the second call of such a transaction stores the table under the id found in the table itself): the approval is reached with no table attached, or after 'id != table.GetCID()' was false", 1)
+	if cc := p.Func("(*pkg/innerring/processors/container.Processor).processCreateContainerRequest"); cc == nil {
+		r.Fatalf("C34.R6: processCreateContainerRequest not found")
+	} else {
+		isTableCID := func(v ssa.Value) bool {
+			c, ok := v.(*ssa.Call)
+			return ok && strings.HasSuffix(core.CalleeName(c), "eacl.Table).GetCID")
+		}
+		isNewID := func(v ssa.Value) bool {
+			c, ok := core.Unwrap(v).(*ssa.Call)
+			if ok && strings.HasSuffix(core.CalleeName(c), "container/id.NewFromMarshalledContainer") {
+				return true
+			}
+			if u, isU := v.(*ssa.UnOp); isU {
+				if al, isA := u.X.(*ssa.Alloc); isA && al.Comment == "id" {
+					return true
+				}
+			}
+			return false
+		}
+		gs := []core.Guard{
+			{Name: "table-is-for-this-container(ne-form)", Comps: []core.Comp{{Result: -1, Kind: core.IsFalse}}, Value: func(_ *ssa.Function, v ssa.Value) bool {
+				bo, ok := v.(*ssa.BinOp)
+				return ok && bo.Op == token.NEQ && (isTableCID(bo.X) && isNewID(bo.Y) || isTableCID(bo.Y) && isNewID(bo.X))
+			}},
+			{Name: "table-is-for-this-container(eq-form)", Comps: []core.Comp{{Result: -1, Kind: core.IsTrue}}, Value: func(_ *ssa.Function, v ssa.Value) bool {
+				bo, ok := v.(*ssa.BinOp)
+				return ok && bo.Op == token.EQL && (isTableCID(bo.X) && isNewID(bo.Y) || isTableCID(bo.Y) && isNewID(bo.X))
+			}},
+			{Name: "no-eacl-attached", Comps: []core.Comp{{Result: -1, Kind: core.IsNil}}, Value: func(f *ssa.Function, v ssa.Value) bool {
+				_, path := core.AccessPathM(core.NewMemReach(f), v)
+				return len(path) == 1 && path[0] == "EACLTable"
+			}},
+		}
+		core.CheckEffectsFn(p, r6, cc, core.EffectRule{Min: 1, Guards: gs,
+			Derived: []core.Derived{{Name: "no-foreign-table", Alts: [][]string{{gs[0].Name}, {gs[1].Name}, {gs[2].Name}}}},
+			Effect:  core.CallTo("(*pkg/innerring/processors/container.Processor).approvePutContainer"), Need: func(string) []string { return []string{"no-foreign-table"} }})
+	}
+	r.Explain += " (R6) a two-call creation transaction (create + put eACL) is co-signed only if the table in the second call names the container the first call creates; the table is authenticated against the owner of the NEW container, so a table for another container would overwrite that container's eACL with the requester's signature."
 	// ---- R2
 	r2 := r.Rule("C34.R2", "NotaryParserInfo.p is written only by SetUnaryParser (single-call acceptor) and SetParser; SetParser receives only tabled multi-call parsers", 3)
 	const npi = "(pkg/morph/event.NotaryParserInfo).p"
